@@ -372,7 +372,7 @@ def core_cancel_case(rng):
         prog += [['link', 'Article', [1], 'tags', 'Tag', [2]], ['unlink', 'Article', [1], 'tags', 'Tag', [2]]]
     elif k < 0.8:
         prog += [['set', 'Tag', [2], 'name', 1]]
-    prog += [['commit'], ['core_unlink', 'Article', [1], 'tags', 'Tag', [1]]]
+    prog += [['commit'], ['core_unlink', 'Article', [1], 'tags', 'Tag', [1], style()]]
     if rng.random() < 0.5:
         prog += [['link', 'Tag', [2], 'articles', 'Article', [1]], ['unlink', 'Tag', [2], 'articles', 'Article', [1]]]
     prog += [['commit'], ['link', 'Article', [1], 'tags', 'Tag', [1]], ['commit']]
